@@ -2,11 +2,11 @@ package props
 
 import (
 	"fmt"
-	"sort"
-	"strings"
 	"go/constant"
 	"go/token"
 	"go/types"
+	"sort"
+	"strings"
 
 	"golang.org/x/tools/go/ssa"
 
